@@ -1591,6 +1591,9 @@ func (ctx Ctx) varDeclStmt(s *ast.DeclStmt) coq.Binding {
 	if len(decl.Specs) > 1 {
 		ctx.unsupported(s, "multiple declarations in one var statement")
 	}
+	if len(decl.Specs) == 0 {
+		ctx.unsupported(s, "empty var declaration")
+	}
 	// guaranteed to be a *Ast.ValueSpec due to decl.Tok
 	//
 	// https://golang.org/pkg/go/ast/#GenDecl
@@ -2181,6 +2184,10 @@ func (ctx Ctx) maybeDecls(d ast.Decl) []coq.Decl {
 		case token.TYPE:
 			if len(d.Specs) > 1 {
 				ctx.noExample(d, "multiple specs in a type decl")
+			}
+			if len(d.Specs) == 0 {
+				// type (): declares nothing
+				return nil
 			}
 			spec := d.Specs[0].(*ast.TypeSpec)
 			ctx.dep.addName(spec.Name.Name)
